@@ -235,6 +235,33 @@ def c02_minimal_41(d: D4b, s: int, f: int) -> bool:
     return _minimal("c02_minimal_41", (d, s, f), 4, 1, edges, starts, fin)
 
 
+D5 = Tuple[int, int, int, int, int]
+FIN52 = [[2, 3, 4], [0, 2, 4]]
+
+
+def c02_minimal_52(b: D5, fin: int) -> bool:
+    """
+    pre: pinned(fin=fin, b0=b[0], b1=b[1])
+    pre: enc.in_range(b, 6) & ((0 <= fin) & (fin < 2))
+    post: _
+    """
+    # 5 states over {a,b}: an a-chain 0->1->2->3->4 and arbitrary b-transitions (0 = none); sizes at which the
+    # Hopcroft processing list holds a class for both symbols at once (not reachable with <= 4 states)
+    edges = [(q, 1, q + 1) for q in range(4)]
+    for q in range(5):
+        v = enc.pick(b[q], 6)
+        if v > 0:
+            edges.append((q, 2, v - 1))
+    finals = FIN52[enc.pick(fin, 2)]
+    return _minimal("c02_minimal_52", (b, fin), 5, 2, edges, [0], finals)
+
+
+def _sh_min52(tier):
+    if tier == "quick":
+        return product_pins(fin=[0, 1], b0=[0, 3, 5], b1=[0, 3])
+    return product_pins(fin=[0, 1], b0=list(range(6)), b1=list(range(6)))
+
+
 def _sh_equiv_dfa(tier):
     if tier == "quick":
         return product_pins(sx=[1], sy=[0, 1], fx=[1, 2], yalpha=[0, 1], dx0=[0, 1, 2])
@@ -287,6 +314,12 @@ CONDS = [
          FUNCS, RULE),
     Cond("C02", c02_minimal_22, _sh_min22,
          {"quick": "all partial DFAs with 2 states over {a,b} (972)", "thorough": "same"},
+         FUNCS, RULE),
+    Cond("C02", c02_minimal_52, _sh_min52,
+         {"quick": "5-state partial DFAs over {a,b}: a-chain 0->1->2->3->4 plus arbitrary b-transitions with the first "
+                   "two pinned to 6 combinations, final sets {2,3,4} / {0,2,4} (a slice of a size exhaustive search "
+                   "cannot reach: the Hopcroft work-list only holds one class for two symbols from 5 states on)",
+          "thorough": "all 6^5 b-transition tables x the two final sets"},
          FUNCS, RULE),
     Cond("C02", c02_minimal_32, _sh_min32,
          {"thorough": "partial DFAs with 3 states over {a,b}, start 0, non-empty final mask (4^6 x 7)"},
